@@ -24,6 +24,7 @@ CONSTANTS
   MaxOps,      \* bound on the number of operations after NewCache
   MaxPending,  \* at most this many directory changes between two refreshes
   BUG_F5, BUG_F6, \* TRUE re-introduces the two defects repaired in /repo (self-test of the invariants)
+  OPS,         \* operation classes enabled: subset of {"fs", "refresh", "api", "inject"}
   EMIT         \* TRUE: print every terminal behaviour as a JSON row
 
 VARIABLES fs, dirs, idx, fresh, nops, hist, fs0, pend
@@ -188,14 +189,16 @@ Inject(req) ==
   /\ UNCHANGED <<fs, dirs, idx, fresh, fs0, pend>>
 
 Next ==
-  \/ \E d \in DirIds, n \in SpecNames, c \in WContents : FsWrite(d, n, c)
-  \/ \E d \in DirIds, n \in NoiseNames, c \in NoiseContents : FsWrite(d, n, c)
-  \/ \E d \in DirIds, n \in Names : FsRemove(d, n)
-  \/ \E d \in DirIds, st \in {"missing", "dir", "notdir", "badanc"} : FsDirState(d, st)
-  \/ Refresh
-  \/ \E n \in SpecNames, c \in WContents : ApiWrite(n, c)
-  \/ \E n \in SpecNames : ApiRemove(n)
-  \/ \E r \in Requests : Inject(r)
+  \/ /\ "fs" \in OPS
+     /\ \/ \E d \in DirIds, n \in SpecNames, c \in WContents : FsWrite(d, n, c)
+        \/ \E d \in DirIds, n \in NoiseNames, c \in NoiseContents : FsWrite(d, n, c)
+        \/ \E d \in DirIds, n \in Names : FsRemove(d, n)
+        \/ \E d \in DirIds, st \in {"missing", "dir", "notdir", "badanc"} : FsDirState(d, st)
+  \/ "refresh" \in OPS /\ Refresh
+  \/ /\ "api" \in OPS
+     /\ \/ \E n \in SpecNames, c \in { x \in WContents : x.k = "ok" } : ApiWrite(n, c)
+        \/ \E n \in SpecNames : ApiRemove(n)
+  \/ "inject" \in OPS /\ \E r \in Requests : Inject(r)
 
 Spec == Init /\ [][Next]_vars
 
